@@ -220,6 +220,22 @@ def worker(case, led):
                           {"direction": direction}, {"model": name, "nsites": n, "state": label, "canonical": direction, "seed": seed})
             except Exception as e:
                 led.check(False, f"post:{fn}:ret_s_total", fn, f"compress(ret_s=True) raised {e!r}", (name, n, label, direction, "ret_s"), {}, {})
+            # --- ret_s together with an actual truncation: the values returned for the FIRST cut of the sweep are the complete spectrum of the original state there
+            #     (what is discarded is read off them), not the kept part
+            if n >= 2:
+                mp = set_config(base.copy(), "fixed", M=64)
+                try:
+                    _, sarr = mp.compress(temp_m_trunc=1, ret_s=True)
+                    b = 0 if direction == "right" else n - 2
+                    sd = np.sort(spectra[b])[::-1]
+                    row = np.sort(np.asarray(sarr[0]))[::-1]
+                    k = min(len(row), len(sd))
+                    ok = np.abs(row[:k] - sd[:k]).max() <= 1e-9 * nrm0 and np.abs(row[k:]).max(initial=0) <= 1e-9 and np.abs(sd[k:]).max(initial=0) <= 1e-9 * nrm0
+                    led.check(ok, f"post:{fn}:ret_s_first_cut_is_the_spectrum_before_truncation", fn, f"cut {b + 1} with temp_m_trunc=1: returned {row[:4]} vs dense {sd[:4]}",
+                              (name, n, label, direction, "ret_s-trunc"), {"direction": direction}, {"model": name, "nsites": n, "state": label, "canonical": direction, "seed": seed},
+                              nontrivial=bool(np.sum(sd > 1e-9 * nrm0) > 1))
+                except Exception as e:
+                    led.check(False, f"post:{fn}:ret_s_total", fn, f"compress(temp_m_trunc=1, ret_s=True) raised {e!r}", (name, n, label, direction, "ret_s-trunc"), {}, {})
 
 
 def w_config_copy(case, led):
